@@ -775,7 +775,7 @@ pub fn try_factor(n: &Uint, a: Uint, b: Uint) -> Option<(Uint, Uint)> {
     // if a and b actually share a factor with n.
     if a + b != *n {
         let gcd = Integer::gcd(&Int::from_bits(*n), &Int::from_bits(a + b));
-        if gcd > Int::one() {
+        if gcd > Int::one() && gcd < Int::from_bits(*n) {
             let p = gcd.to_bits();
             let q = n / p;
             assert!(p * q == *n);
@@ -785,7 +785,7 @@ pub fn try_factor(n: &Uint, a: Uint, b: Uint) -> Option<(Uint, Uint)> {
     }
     if a != b {
         let gcd = Integer::gcd(&Int::from_bits(*n), &Int::from_bits(n + a - b));
-        if gcd > Int::one() {
+        if gcd > Int::one() && gcd < Int::from_bits(*n) {
             let p = gcd.to_bits();
             let q = n / p;
             assert!(p * q == *n);
